@@ -137,6 +137,29 @@ def library():
     return _LIB
 
 
+def ladder(k, double_rungs=()):
+    """Two carbon chains of k atoms joined by k rungs ([k-1]-ladderane skeleton): the two-rail partition has k cut
+    bonds between its two fragments (k = 1..4), rungs listed in double_rungs are double bonds."""
+    atoms = [['C', 0, 0] for _ in range(2 * k)]
+    bonds = [[i, i + 1, 1] for i in range(k - 1)] + [[k + i, k + i + 1, 1] for i in range(k - 1)]
+    bonds += [[i, k + i, 2 if i in double_rungs else 1] for i in range(k)]
+    return {'a': atoms, 'b': bonds}
+
+
+def multi_cut_descriptions():
+    """(molecule, partition) pairs with 2, 3 and 4 cut bonds between one pair of fragments, some of them double."""
+    out = []
+    for k in (2, 3, 4):
+        for dbl in ((), (0,), (k - 1,)) + (((1,),) if k >= 3 else ()):
+            if k == 2 and dbl:
+                continue   # a four-ring with a double rung next to ... keep the plain square only
+            mol = ladder(k, dbl)
+            out.append((mol, [0] * k + [1] * k))
+            if k >= 3:
+                out.append((mol, [0] * k + [1] * (k - 1) + [2]))
+    return out
+
+
 # ----------------------------------------------------------------------------------------- exhaustive small molecules
 _ATLAS = None
 
